@@ -419,7 +419,7 @@ func init() {
 		floors = append(floors, "param_"+n)
 	}
 	otherChecks["C18"] = func(tier string, seed uint64) int {
-		spec := checkSpec{Prop: "C18", Level: "exploration", NQuick: 280, NThorough: 5600,
+		spec := checkSpec{Prop: "C18", Level: "exploration", NQuick: 840, NThorough: 16800,
 			Rule:   "case i uses shipped parameter file i mod 28 (every shipped file: annual main crops, varieties, catch crops and the permanent crops grown as consecutive cuts) and 1-3 (thorough: up to 6) overrides cycling through every overridable base / per-stage / per-organ parameter with values inside the valid range; run A = override on the batch line, run B = no override on a parameter folder whose file carries the same edit, all result files byte-identical (12 significant digits of crop, water, N and temperature state per day); 30% of the cases carry one out-of-range value or index and must equal the run without overrides; evaluations = cases (2-3 full runs each), non-trivial = pairs in which the override actually changes the results relative to the baseline (rejection cases: run > 30 days)",
 			Floors: floors}
 		return runSimCheck(spec, tier, seed)
